@@ -173,6 +173,8 @@ def _mix_by_volume_pairs(pairs):
     # Drop pairs with zero quantity
     # Note: must be first statement in order to accept iterators
     pairs = [(f, q) for f, q in pairs if q > 0]
+    # Quantities may be narrow numpy integers: q*density must not wrap around
+    pairs = [(f, float(q)) for f, q in pairs]
 
     for f, _ in pairs:
         if f.density is None or f.density == 0.:
